@@ -22,17 +22,17 @@ func main() {
 	r.Assume("Chunk/ChunkProcess: a piece is non-empty; for a chunk size below 1 only 'concatenation = input' is demanded; an error returned by the callback ends the iteration and is returned")
 	r.Assume("SubSlice/Copy clamping as documented: negative start counts as 0, negative or oversized end/length means 'to the end', an empty window is an empty result; for out-of-range Get/Remove/Pop/Shift only ok=false and an unchanged sequence are demanded")
 
-	r.Cases("setops/rand", r.N(500000, 12500000), ev.Opt{HangViolation: true}, randSetCase)
+	r.Cases("setops/rand", r.N(1200000, 30000000), ev.Opt{HangViolation: true}, randSetCase)
 	small := smallScope{sym: 3, len1: 5, len2: 3}
 	if r.Thorough() {
 		small = smallScope{sym: 4, len1: 6, len2: 3}
 	}
 	r.Cases("setops/small-int", small.total(), ev.Opt{HangViolation: true}, func(c *ev.Case) { smallRun(small, instInt, c) })
 	r.Cases("setops/small-pair", small.total(), ev.Opt{HangViolation: true}, func(c *ev.Case) { smallRun(small, instPair, c) })
-	r.Cases("bounds", r.N(25000, 600000), ev.Opt{HangViolation: true}, boundsCase)
-	r.Cases("flex/mix", r.N(60000, 1500000), ev.Opt{HangViolation: true}, flexMixCase)
-	r.Cases("flex/threshold", r.N(15000, 400000), ev.Opt{HangViolation: true}, flexThresholdCase)
-	r.Cases("flex/selfarg", r.N(5000, 100000), ev.Opt{HangViolation: true}, flexSelfArgCase)
+	r.Cases("bounds", r.N(60000, 1500000), ev.Opt{HangViolation: true}, boundsCase)
+	r.Cases("flex/mix", r.N(150000, 4000000), ev.Opt{HangViolation: true}, flexMixCase)
+	r.Cases("flex/threshold", r.N(40000, 1000000), ev.Opt{HangViolation: true}, flexThresholdCase)
+	r.Cases("flex/selfarg", r.N(10000, 200000), ev.Opt{HangViolation: true}, flexSelfArgCase)
 
 	// anti-vacuity floors (far below what a healthy run observes)
 	for _, k := range []string{"calls/Diff", "calls/Intersect", "calls/Unique", "calls/DiffInPlaceFirst", "calls/IntersectInPlaceFirst", "calls/UniqueInPlace"} {
